@@ -331,6 +331,18 @@ func (c *Ctx) entryPoints() (map[string]*ssa.Function, []string) {
 			out["cli.sign"] = fn
 		}
 	}
+	// when the closure only hands over to a run function, the closure is still the entry: the anonymous function of the
+	// cli package from which BulkUpdate is reached through static calls
+	if bulk := out["db.BulkUpdate"]; bulk != nil {
+		for _, fn := range c.Funcs {
+			if fn.Parent() == nil || fn.Pkg == nil || !strings.HasSuffix(fn.Pkg.Pkg.Path(), "/cli") {
+				continue
+			}
+			if reachesStatically(c, fn, bulk, -2) {
+				out["cli.sign"] = fn
+			}
+		}
+	}
 	if out["cli.sign"] == nil {
 		missing = append(missing, "cli sign closure")
 	}
